@@ -45,7 +45,7 @@ class C05(flow.Spec):
             for _ in range(rng.choice([0, 0, 1, 2, 3, 5])):
                 size = rng.choice([1, 4096, 4097, 8192, rng.randrange(1, 4 * 4096)])
                 regions.append([size, rng.randrange(1, 1 << 30)])
-        elif pat < 0.63:
+        elif pat < 0.60:
             # a reservation around the span of one page table (2 MiB), possibly after a small one
             note = 'big-region'
             if rng.random() < 0.6:
